@@ -1,7 +1,9 @@
 package main
 
 import (
+	"bytes"
 	"fmt"
+	"sync"
 
 	ethcrypto "github.com/ethereum/go-ethereum/crypto"
 	scom "github.com/polynetwork/poly/native/service/cross_chain_manager/common"
@@ -133,9 +135,14 @@ func okexKit(f *family) *depKit {
 	return k
 }
 
-// checkDeposit: implication oracle for one executed ImportOuterTransfer.
-func (c *ctx) checkDeposit(f *family, part string, before tracked, sp hdrSpec, dc depCase, res polyenv.Result, replay func() any) {
-	hdrOK, why := f.refOK(sp, before, false)
+// checkDeposit: implication oracle for one executed ImportOuterTransfer. hh = what the submitted header body really
+// hashes to. The header is acceptable if the tracked set signed that hash with > 2/3 of its power (refOK), or if it IS
+// the tracked epoch header (same height, body hashing to the tracked block hash: verified when it was installed).
+func (c *ctx) checkDeposit(f *family, part string, before tracked, sp hdrSpec, hh []byte, dc depCase, res polyenv.Result, replay func() any) {
+	hdrOK, why := f.refOK(sp, hh, before, false)
+	if !hdrOK && before.ok && sp.Height == before.Height && bytes.Equal(hh, before.BlockHash) {
+		hdrOK, why = true, ""
+	}
 	stateOK := string(sp.AppHash) == string(dc.state.root)
 	legit := hdrOK && stateOK && dc.exists
 	if legit {
@@ -160,83 +167,209 @@ func (c *ctx) checkDeposit(f *family, part string, before tracked, sp hdrSpec, d
 	}
 }
 
-// partC: deposit alphabet x header variants, one ImportOuterTransfer each from a genesis state (tracked height 3, set A).
+// signer patterns of a universe set: all / minimal > 2/3 / exactly 2/3 / one commit + nil votes
+func quorumPatterns(s *vset) (full, min, exact, nils string) {
+	switch len(s.keys) {
+	case 4:
+		return "cccc", "ccaa", "caac", "cnnn"
+	case 3:
+		return "ccc", "ccc", "cca", "cnn"
+	}
+	return "cc", "cc", "ca", "cn"
+}
+
+type hdrVariant struct {
+	name      string
+	sp        hdrSpec
+	canonical bool // well-formed: an existence proof against it must be accepted
+}
+
+// depositHeaders: the header dimension of a deposit, relative to the tracked epoch info `cur` (installed from `trSpec`).
+func depositHeaders(ver uint64, cur tracked, trSpec hdrSpec, T, W, chg *vset) []hdrVariant {
+	H := cur.Height
+	mk := func(h int64, vals, next *vset, sigs string) hdrSpec {
+		return hdrSpec{ChainID: tmChainID, Ver: ver, Height: h, Vals: vals, HdrVals: vals, Next: next, Sigs: sigs}
+	}
+	full, min, exact, nils := quorumPatterns(T)
+	fw, _, _, _ := quorumPatterns(W)
+	out := []hdrVariant{
+		{"ok", mk(H+1, T, T, full), true},
+		{"ok-min-quorum", mk(H+1, T, T, min), true},
+		{"ok-changing-set", mk(H+1, T, chg, full), true}, // also advances the tracked set
+		{"exactly-two-thirds", mk(H+1, T, T, exact), false},
+		{"nil-votes", mk(H+1, T, T, nils), false},
+	}
+	for _, dh := range []int64{-1, 0, 1, 2} {
+		type body struct {
+			name string
+			sp   hdrSpec
+		}
+		fresh := mk(H+dh, T, T, full)
+		shifted := fresh
+		shifted.TimeShift = 1
+		bodies := []body{{"fresh", fresh}, {"fresh-other-time", shifted}}
+		if dh == 0 {
+			tr := trSpec
+			tr.Memo = false
+			alt := tr
+			alt.TimeShift = 1
+			bodies = append(bodies, body{"tracked-header", tr}, body{"tracked-header-other-time", alt})
+		}
+		for _, b := range bodies {
+			for _, cm := range []string{"quorum", "all-absent", "empty-commit", "nil-commit", "foreign-set-quorum"} {
+				hashes := []struct {
+					n string
+					h []byte
+				}{{"real", nil}, {"tracked-blockhash", cur.BlockHash}, {"garbage", fill(0x99)}}
+				if cm == "nil-commit" {
+					hashes = hashes[:1]
+				}
+				for _, ch := range hashes {
+					sp := b.sp
+					sp.CommitHash = ch.h
+					switch cm {
+					case "quorum":
+						sp.Sigs = all(sCommit, len(sp.Vals.keys))
+					case "all-absent":
+						sp.Sigs = all(sAbsent, len(sp.Vals.keys))
+					case "empty-commit":
+						sp.CommitMode = "empty"
+					case "nil-commit":
+						sp.CommitMode = "nil"
+					case "foreign-set-quorum":
+						sp.Vals, sp.HdrVals, sp.Sigs = W, W, fw
+					}
+					out = append(out, hdrVariant{fmt.Sprintf("dh%+d/%s/commit=%s/commithash=%s", dh, b.name, cm, ch.n), sp,
+						b.name == "fresh" && cm == "quorum" && ch.n == "real" && dh == 1})
+				}
+			}
+		}
+	}
+	return out
+}
+
+// partC: deposit alphabet x deposit-header dimension, one ImportOuterTransfer each, from two base states:
+// G (genesis at height 3 trusting A) and S (G + the synced epoch header 4: A -> B, so the tracked header is a signed one).
 func (c *ctx) partC(fams []*family, kits map[string]*depKit) map[string]any {
 	r := c.r
 	out := map[string]any{}
+	type job struct {
+		f   *family
+		kit *depKit
+		ver uint64
+		dc  depCase
+	}
+	var jobs []job
 	for _, f := range fams {
 		if !f.deposit {
 			continue
 		}
-		kit := kits[f.name]
-		U := universe(f)
-		A, B := U["A"], U["B"]
-		n := 0
 		for _, ver := range f.vers {
-			gd := c.genesisDump(f, 3, ver, A, fill(0xaa))
-			type hv struct {
-				name string
-				sp   hdrSpec
+			for _, dc := range kits[f.name].cases {
+				jobs = append(jobs, job{f, kits[f.name], ver, dc})
 			}
-			mk := func(h int64, vals, next *vset, sigs string) hdrSpec {
-				return hdrSpec{ChainID: tmChainID, Ver: ver, Height: h, Vals: vals, HdrVals: vals, Next: next, Sigs: sigs}
-			}
-			hvs := []hv{
-				{"ok", mk(4, A, A, "cccc")},
-				{"ok-min-quorum", mk(4, A, A, "ccaa")},   // 13 of 18
-				{"ok-changing-set", mk(4, A, B, "cccc")}, // also advances the tracked set
-				{"at-tracked-height", mk(3, A, A, "cccc")},
-				{"exactly-two-thirds", mk(4, A, A, "caac")}, // 12 of 18
-				{"nil-votes", mk(4, A, A, "cnnn")},
-				{"wrong-set", mk(4, B, B, "ccc")},
-				{"below-tracked", mk(2, A, A, "cccc")},
-			}
-			for _, dc := range kit.cases {
-				for _, h := range hvs {
-					if r.Expired() {
-						r.Capped("partC: deadline")
-						break
+		}
+	}
+	var mu sync.Mutex
+	execs := map[string]int{}
+	nvar := 0
+	ch := make(chan job)
+	var wg sync.WaitGroup
+	for wk := 0; wk < c.workers; wk++ {
+		wg.Add(1)
+		go func() {
+			defer wg.Done()
+			for j := range ch {
+				f, kit, ver, dc := j.f, j.kit, j.ver, j.dc
+				U := universe(f)
+				app := dc.state.root
+				if dc.name == "proof-of-other-root" {
+					app = kit.main.root // headers commit to the main state, the proof is for another root
+				}
+				type base struct {
+					name   string
+					dump   polyenv.Dump
+					trSpec hdrSpec
+					T, W   *vset
+					chg    *vset
+				}
+				gd, gspec := c.genesisDumpSpec(f, 3, ver, U["A"], app)
+				s4 := hdrSpec{ChainID: tmChainID, Ver: ver, Height: 4, Vals: U["A"], HdrVals: U["A"], Next: U["B"], Sigs: "cccc", AppHash: app}
+				var sd polyenv.Dump
+				raw4, _ := f.raw(s4)
+				withSim(gd, func(s *hsenv.Sim) {
+					if res := s.Exec(headersTx(f.chain, raw4), 4, 400); !res.OK {
+						r.HarnessError("partC %s: base sync failed: %v", f.name, res.Err)
 					}
-					sp := h.sp
-					sp.AppHash = dc.state.root
-					if dc.name == "proof-of-other-root" {
-						sp.AppHash = kit.main.root // header commits to the main state, proof is for another root
-					}
-					raw, hh := f.raw(sp)
-					var before, after tracked
-					var res polyenv.Result
-					withSim(gd, func(s *hsenv.Sim) {
-						before = trackedOf(s, f.chain)
-						res = s.Exec(importTx(f.chain, sp.Height, raw, dc.sub), 5, 500)
-						after = trackedOf(s, f.chain)
-					})
-					n++
-					r.Eval()
-					replay := func() any {
-						return map[string]any{"part": "C", "family": f.name, "tracked_before": before.String(), "header": sp.String(), "header_variant": h.name,
-							"deposit_case": dc.name, "kp": dc.sub.Kp, "value_hex": fmt.Sprintf("%x", dc.sub.Value), "value_ascii_prefix": printable(dc.sub.Value, 60),
-							"proof_op_types": opTypes(dc.sub.Proof), "message_exists_in_committed_state": dc.exists, "proof_is_absence_proof": dc.absence,
-							"tx_ok": res.OK, "tx_err": fmt.Sprint(res.Err),
-							"repro": "SyncGenesisHeader(h=3,next=A) ; ImportOuterTransfer{Height:header.h, HeaderOrCrossChainMsg:header, Extra:amino(CosmosProofValue{Kp,Value}), Proof:amino(merkle.Proof)}"}
-					}
-					c.checkDeposit(f, "C", before, sp, dc, res, replay)
-					c.checkAdvance(f, "C", before, after, []hdrSpec{sp}, [][]byte{hh}, replay)
-					r.Case(fmt.Sprintf("C/%s/v%d/%s/%s/ok=%v", f.name, ver, dc.name, h.name, res.OK))
-					if dc.name == "exist" && h.name == "ok" {
-						r.Sample(replay())
-					}
-					if (dc.name == "exist" || dc.name == "ics23-exist") && (h.name == "ok" || h.name == "ok-min-quorum" || h.name == "ok-changing-set") && !res.OK {
-						r.HarnessError("partC %s v%d: well-formed deposit (%s,%s) rejected: %v", f.name, ver, dc.name, h.name, res.Err)
+					sd = s.Dump()
+				})
+				bases := []base{{"G(h=3,trusts A)", gd, gspec, U["A"], U["C"], U["B"]}, {"S(G+sync h=4 A->B)", sd, s4, U["B"], U["C"], U["A"]}}
+				cnt := 0
+				for _, b := range bases {
+					cur := trackedFromDump(b.dump, f.chain)
+					hvs := depositHeaders(ver, cur, b.trSpec, b.T, b.W, b.chg)
+					mu.Lock()
+					nvar = len(hvs)
+					mu.Unlock()
+					for _, h := range hvs {
+						if r.Expired() {
+							r.Capped("partC: deadline")
+							break
+						}
+						sp := h.sp
+						sp.AppHash = app
+						raw, hh := f.raw(sp)
+						var before, after tracked
+						var res polyenv.Result
+						withSim(b.dump, func(s *hsenv.Sim) {
+							before = trackedOf(s, f.chain)
+							res = s.Exec(importTx(f.chain, sp.Height, raw, dc.sub), 5, 500)
+							after = trackedOf(s, f.chain)
+						})
+						cnt++
+						r.Eval()
+						replay := func() any {
+							return map[string]any{"part": "C", "family": f.name, "base_state": b.name, "tracked_before": before.String(), "header": sp.String(),
+								"header_variant": h.name, "header_body_hash": fmt.Sprintf("%x", hh), "tracked_block_hash": fmt.Sprintf("%x", before.BlockHash),
+								"deposit_case": dc.name, "kp": dc.sub.Kp, "value_hex": fmt.Sprintf("%x", dc.sub.Value), "value_ascii_prefix": printable(dc.sub.Value, 60),
+								"proof_op_types": opTypes(dc.sub.Proof), "message_exists_in_committed_state": dc.exists, "proof_is_absence_proof": dc.absence,
+								"tx_ok": res.OK, "tx_err": fmt.Sprint(res.Err),
+								"repro": "SyncGenesisHeader(h=3,next=A) [; SyncBlockHeader(h=4, A->B, all sign)] ; ImportOuterTransfer{Height:header.h, HeaderOrCrossChainMsg:header, Extra:amino(CosmosProofValue{Kp,Value}), Proof:amino(merkle.Proof)}; header variant = height relative to tracked / body / commit / Commit.BlockID.Hash"}
+						}
+						c.checkDeposit(f, "C", before, sp, hh, dc, res, replay)
+						c.checkAdvance(f, "C", before, after, []hdrSpec{sp}, [][]byte{hh}, replay)
+						r.Case(fmt.Sprintf("C/%s/v%d/%s/%s/ok=%v", f.name, ver, dc.name, h.name, res.OK))
+						if dc.name == "exist" && h.name == "ok" {
+							r.Sample(replay())
+						}
+						if (dc.name == "exist" || dc.name == "ics23-exist") && h.canonical && !res.OK {
+							r.HarnessError("partC %s v%d %s: well-formed deposit (%s,%s) rejected: %v", f.name, ver, b.name, dc.name, h.name, res.Err)
+						}
 					}
 				}
+				mu.Lock()
+				execs[f.name] += cnt
+				mu.Unlock()
 			}
+		}()
+	}
+	for _, j := range jobs {
+		ch <- j
+	}
+	close(ch)
+	wg.Wait()
+	for _, f := range fams {
+		if !f.deposit {
+			continue
 		}
 		var names []string
-		for _, dc := range kit.cases {
+		for _, dc := range kits[f.name].cases {
 			names = append(names, dc.name)
 		}
-		out[f.name] = map[string]any{"deposit_cases": names, "header_variants": 8, "executions": n}
+		out[f.name] = map[string]any{"deposit_cases": names, "base_states": []string{"G: genesis h=3 trusting A", "S: G + synced epoch header h=4 (A->B)"},
+			"header_variants_per_base": nvar, "executions": execs[f.name]}
 	}
+	out["header_dimension"] = "5 quorum variants at tracked+1 (all / minimal >2/3 / changing set / exactly 2/3 / nil votes) + height in tracked{-1,0,+1,+2} x body {fresh header of the trusted set, same with other time; at tracked height also: the tracked header itself, the tracked header with other time} x commit {quorum of the shipped set, all absent, no signature entries, nil commit, quorum of a foreign set} x Commit.BlockID.Hash {real hash of the body, the tracked block hash, garbage}"
 	return out
 }
 
